@@ -9,7 +9,7 @@ from ..core import (AnalysisError, ap, atoms, call_attr, calls, facts, find_call
                     stores, walk, parent, enclosing_stmt)
 from ..miniinterp import run_block
 from ..tmplmodel import parse_template
-from .common import (has_path_fact, class_methods_reachable, const_of, fmt_count, loops_over, spec_symbol,
+from .common import (as_pair, namedtuple_fields, has_path_fact, class_methods_reachable, const_of, fmt_count, loops_over, spec_symbol,
                      struct_fmt_of_prim, has_eq_fact)
 
 SER = "hippolyzer/lib/base/message/udpserializer.py"
@@ -34,6 +34,45 @@ class _RenameArg(ast.NodeTransformer):
         if node.id == self.name:
             return ast.copy_location(ast.Name(id="_", ctx=node.ctx), node)
         return node
+
+
+def component_index(repo, mod, fn_node, expr, spec_names):
+    """Which component (0/1) of a spec pair an expression denotes: v[0], spec.unpacker (NamedTuple field), or a
+    name bound by unpacking the pair."""
+    if isinstance(expr, ast.Subscript) and isinstance(expr.slice, ast.Constant) and isinstance(expr.slice.value, int):
+        return expr.slice.value
+    if isinstance(expr, ast.Attribute) and isinstance(expr.value, ast.Name):
+        # the object may have been re-bound to NamedTupleClass(*spec)
+        for st in stores(fn_node, into_defs=False):
+            if st.path == expr.value.id and isinstance(st.value, ast.Call):
+                fields = namedtuple_fields(repo, mod, ap(st.value.func) or "")
+                if fields and expr.attr in fields:
+                    return fields.index(expr.attr)
+        for ci_list in repo.classes.values():
+            for ci in ci_list:
+                if ci.module is mod:
+                    fields = namedtuple_fields(repo, mod, ci.name)
+                    if fields and len(fields) == 2 and expr.attr in fields:
+                        return fields.index(expr.attr)
+    if isinstance(expr, ast.Name):
+        # bound by tuple-unpacking in a for target / comprehension: for k, (u, p) in ... ; for k, v in ...: u, p = v
+        for n in ast.walk(fn_node):
+            tgt = None
+            if isinstance(n, (ast.For, ast.comprehension)):
+                tgt = n.target
+            elif isinstance(n, ast.Assign) and len(n.targets) == 1 and isinstance(n.targets[0], ast.Tuple):
+                tgt = n.targets[0]
+            if tgt is None:
+                continue
+            for t in ast.walk(tgt):
+                if isinstance(t, ast.Tuple) and len(t.elts) == 2 and all(isinstance(e, ast.Name) for e in t.elts):
+                    names = [e.id for e in t.elts]
+                    if expr.id in names and not (set(names) & {"k", "key", "msg_type"} and names.index(expr.id) == 0 and t is tgt and isinstance(n, (ast.For, ast.comprehension)) and False):
+                        # skip the (key, value) outer pair of .items()
+                        if isinstance(n, (ast.For, ast.comprehension)) and t is tgt:
+                            continue
+                        return names.index(expr.id)
+    return None
 
 
 def callable_norm(repo, mod, node) -> str:
@@ -150,7 +189,7 @@ def r1(ctx):
     # factory rows / idiom rows
     for m, v in spec_rows.items():
         where = ctx.w(pmod, v)
-        if isinstance(v, ast.Call):
+        if isinstance(v, ast.Call) and as_pair(repo, pmod, v) is None:
             fname = ap(v.func)
             ctx.require(fname in ("_make_struct_spec", "_make_tuplecoord_spec"),
                         f"unknown SPECS factory {fname} for {m}: read it and extend C01.R1")
@@ -186,8 +225,9 @@ def r1(ctx):
                         npar = len(ci.methods["__init__"].node.args.args) - 1
                         ctx.ob("C01.R1", f"SPECS[{m}] format arity matches {ci.name}", npar == n_el, where,
                                f"{ci.name} has {npar} components, format {fmt!r} packs {n_el}")
-        elif isinstance(v, ast.Tuple) and len(v.elts) == 2:
-            key = (callable_norm(repo, pmod, v.elts[0]), callable_norm(repo, pmod, v.elts[1]))
+        elif as_pair(repo, pmod, v) is not None:
+            p0, p1 = as_pair(repo, pmod, v)
+            key = (callable_norm(repo, pmod, p0), callable_norm(repo, pmod, p1))
             if key not in INVERSE_IDIOMS:
                 raise AnalysisError(f"SPECS[{m}] pair {key} is not in the confirmed inverse-idiom table "
                                     f"(read it, then extend C01.R1.INVERSE_IDIOMS)")
@@ -203,13 +243,13 @@ def r1(ctx):
     for fname in ("_make_struct_spec", "_make_tuplecoord_spec"):
         f = repo.fn(fname, PACK)
         rets = [n for n in walk(f.node) if isinstance(n, ast.Return)]
-        ctx.require(len(rets) == 1 and isinstance(rets[0].value, ast.Tuple) and len(rets[0].value.elts) == 2,
-                    f"{fname} no longer returns one (unpacker, packer) tuple")
+        ctx.require(len(rets) == 1 and as_pair(repo, f.module, rets[0].value) is not None,
+                    f"{fname} no longer returns one (unpacker, packer) pair")
         struct_locals = [s.path for s in stores(f.node, into_defs=False)
                          if s.kind == "assign" and isinstance(s.value, ast.Call) and ap(s.value.func) == "struct.Struct"]
         ctx.require(len(struct_locals) == 1, f"{fname}: expected exactly one struct.Struct local")
         sl = struct_locals[0]
-        up, pk = rets[0].value.elts
+        up, pk = as_pair(repo, f.module, rets[0].value)
 
         def uses(expr, method):
             # direct mention, or a nested def (by name) all of whose returns use struct_obj.<method>
@@ -229,12 +269,22 @@ def r1(ctx):
     us = repo.fn("_unpack_specs", PACK)
     idx = {}
     for st in stores(us.node):
-        if st.kind == "assign" and st.path in ("cls.UNPACKERS", "cls.PACKERS") and isinstance(st.value, ast.DictComp):
-            sub = st.value.value
-            if isinstance(sub, ast.Subscript) and isinstance(sub.slice, ast.Constant):
-                idx[st.path] = sub.slice.value
+        if st.kind == "assign" and st.path in ("cls.UNPACKERS", "cls.PACKERS") and st.value is not None:
+            val = st.value
+            comp = None
+            if isinstance(val, ast.DictComp):
+                comp = val.value
+            elif isinstance(val, ast.Name):
+                # a local dict filled in a loop: <local>[k] = <component>
+                for s2 in stores(us.node, into_defs=False):
+                    if s2.kind == "setitem" and s2.path == val.id and s2.value is not None:
+                        comp = s2.value
+            if comp is not None:
+                ci_ = component_index(repo, us.module, us.node, comp, None)
+                if ci_ is not None:
+                    idx[st.path] = ci_
     ctx.ob("C01.R1", "_unpack_specs: UNPACKERS=v[0], PACKERS=v[1]", idx == {"cls.UNPACKERS": 0, "cls.PACKERS": 1},
-           us.where, f"derived tables index {idx}")
+           us.where, f"derived tables take components {idx}")
     for meth, table in (("unpack", "UNPACKERS"), ("pack", "PACKERS")):
         f = repo.fn(f"TemplateDataPacker.{meth}")
         okk = any(isinstance(n, ast.Subscript) and ap(n.value) == f"cls.{table}" and ap(n.slice) == "data_type"
@@ -343,6 +393,19 @@ def r2_r3(ctx):
         for c in find_calls(f.node, "read"):
             if c.args and spec_symbol(c.args[0]) and has_eq_fact(c, ".block_type", "MsgBlockType.MBT_VARIABLE", f.node):
                 r_counts.append((f, c))
+    # the repeat count may be chosen through a helper / a dispatch table keyed by block type: resolve it per block type
+    resolved_all = _reader_repeat_counts(repo, des_fns)
+    resolved = resolved_all if not r_counts else {}
+    rs_ = resolved_all.get("MBT_SINGLE")
+    if rs_ is not None:
+        one = ConstEval(repo, rs_[1].module).ev(rs_[0])
+        ctx.ob("C01.R3", "reader repeats an MBT_SINGLE block exactly once", one == 1 and not isinstance(one, bool), DES,
+               f"repeat count under MBT_SINGLE resolves to {norm(rs_[0])}")
+    rv_ = resolved.get("MBT_VARIABLE")
+    if rv_ is not None:
+        expr, f_ = rv_
+        if isinstance(expr, ast.Call) and call_attr(expr) == "read" and expr.args and spec_symbol(expr.args[0]):
+            r_counts.append((f_, expr))
     ctx.ob("C01.R3", "writer emits one block count under MBT_VARIABLE", len(w_counts) == 1, wb_.where, f"found {len(w_counts)}")
     ctx.ob("C01.R3", "reader reads one block count under MBT_VARIABLE", len(r_counts) == 1, DES, f"found {len(r_counts)}")
     if len(w_counts) == 1 and len(r_counts) == 1:
@@ -381,7 +444,42 @@ def r2_r3(ctx):
             if st.kind == "assign" and st.value is not None and (ap(st.value) or "").endswith(".number") and \
                     has_eq_fact(st.node, ".block_type", "MsgBlockType.MBT_MULTIPLE", f.node):
                 multi_r.append((f, st))
+    if not multi_r and resolved:
+        rm = resolved.get("MBT_MULTIPLE")
+        if rm is not None and (ap(rm[0]) or "").endswith(".number"):
+            multi_r.append(rm)
+        for bt, (expr, f_) in sorted(resolved.items()):
+            if bt != "MBT_VARIABLE":
+                ctx.ob("C01.R3", f"reader consumes no count bytes under {bt}",
+                       not any(isinstance(n, ast.Call) and call_attr(n) in ("read", "read_bytes") for n in ast.walk(expr)),
+                       DES, f"repeat count resolves to {norm(expr)}")
     ctx.ob("C01.R3", "reader repeat count is tmpl number under MBT_MULTIPLE", len(multi_r) == 1, DES)
+
+
+def _reader_repeat_counts(repo, des_fns):
+    """{block type name: (expression that builds the reader's repeat count under that block type, function)}:
+    the `for .. in range(<count>)` loop of the body parser, its count followed through locals, helpers and constant
+    dispatch tables with <block>.block_type fixed to each MsgBlockType member in turn."""
+    out = {}
+    for f in des_fns:
+        loops = [l for l in walk(f.node) if isinstance(l, ast.For) and isinstance(l.iter, ast.Call) and
+                 ap(l.iter.func) == "range" and len(l.iter.args) == 1]
+        if len(loops) != 1:
+            continue
+        paths = {ap(n) for n in walk(f.node) if isinstance(n, ast.Attribute) and n.attr == "block_type" and ap(n)}
+        if not paths:
+            continue
+        ev = ConstEval(repo, f.module)
+        for bt in ("MBT_SINGLE", "MBT_MULTIPLE", "MBT_VARIABLE"):
+            val = ev.ev(ast.parse(f"MsgBlockType.{bt}", mode="eval").body)
+            if isinstance(val, (Sym, CallVal)):
+                return {}
+            env = {p: val for p in paths}
+            expr, fn_, _ = _resolve_value(repo, f, loops[0].iter.args[0], env)
+            if expr is not None:
+                out[bt] = (expr, fn_)
+        break
+    return out
 
 
 def r4(ctx):
@@ -754,6 +852,42 @@ def _taken_return(ev, stmts, env):
     return None
 
 
+class _LambdaFn:
+    """FuncInfo stand-in for a lambda row of a dispatch table (a body with no statements)."""
+    def __init__(self, fi, lam):
+        self.module, self.cls, self.where, self.qual = fi.module, None, fi.where, fi.qual + ".<lambda>"
+        self.node = ast.FunctionDef(name="<lambda>", args=lam.args, body=[ast.Return(value=lam.body)], decorator_list=[])
+
+
+def _dispatch_row(repo, mod, ev, callee, env):
+    """Row (value AST) of a module/class-level dict literal selected by TABLE[key] / TABLE.get(key) when the key is
+    decidable under env; None otherwise."""
+    table = key = None
+    if isinstance(callee, ast.Subscript):
+        table, key = callee.value, callee.slice
+    elif isinstance(callee, ast.Call) and isinstance(callee.func, ast.Attribute) and callee.func.attr == "get" and callee.args:
+        table, key = callee.func.value, callee.args[0]
+    if table is None:
+        return None
+    lit = None
+    if isinstance(table, ast.Name):
+        lit = repo.module_assign(mod, table.id)
+    elif isinstance(table, ast.Attribute) and isinstance(table.value, ast.Name):
+        ci = repo.resolve_class(table.value.id, mod)
+        if ci is not None:
+            lit = repo.class_attr(ci, table.attr)
+    if not isinstance(lit, ast.Dict):
+        return None
+    kv = ev.ev(key, env)
+    if isinstance(kv, (Sym, CallVal)):
+        return None
+    ev_t = ConstEval(repo, mod)
+    for k, v in zip(lit.keys, lit.values):
+        if k is not None and ev_t.ev(k) == kv:
+            return v
+    return None
+
+
 def _resolve_value(repo, fi, node, env, depth=0):
     """Follow a value expression to the expression that actually builds it: locals through the assignment
     taken under env, calls to same-module functions / self. helpers through the return taken under env.
@@ -768,6 +902,28 @@ def _resolve_value(repo, fi, node, env, depth=0):
         return node, fi, env
     if isinstance(node, ast.Call):
         target = None
+        # callable chosen from a constant dispatch table: TABLE[key](...) / TABLE.get(key)(...) / f = TABLE.get(key); f(...)
+        callee = node.func
+        if isinstance(callee, ast.Name):
+            cv = _taken_assign(ev, fi.node, env, callee.id)
+            if cv is not None:
+                callee = cv
+        row = _dispatch_row(repo, fi.module, ev, callee, env)
+        if isinstance(row, ast.Lambda):
+            ps = [a.arg for a in row.args.args]
+            env2 = dict(env)
+            for pname, anode in zip(ps, node.args):
+                val = ev.ev(anode, env)
+                env2[pname] = val
+                # attribute paths of the argument keep their meaning under the parameter's name
+                apath = ap(anode)
+                if apath:
+                    for k, v in env.items():
+                        if k.startswith(apath + "."):
+                            env2[pname + k[len(apath):]] = v
+            return _resolve_value(repo, _LambdaFn(fi, row), row.body, env2, depth + 1)
+        if isinstance(row, ast.Name):
+            node = ast.copy_location(ast.Call(func=row, args=node.args, keywords=node.keywords), node)
         if isinstance(node.func, ast.Name):
             cands = [g for g in repo.funcs.get(node.func.id, []) if g.module is fi.module and g.cls is None and g.parent_fn is None]
             target = cands[0] if len(cands) == 1 else None
